@@ -1347,6 +1347,22 @@ func (c *Canonicalizer) NormalizeOperand(v ssa.Value, context ssa.Instruction) s
 		if operand.Value.Kind() == constant.String {
 			return fmt.Sprintf("const(%q)", constant.StringVal(operand.Value))
 		}
+		// A numeric constant of a type other than the default one for its kind (int8(100),
+		// uint16(1), float32(0.5), or any declared type) behaves differently from the same digits in another width:
+		// instructions that do not print a type of their own (BinOp, UnOp, a bound receiver)
+		// would otherwise render alike.
+		if under, ok := operand.Type().Underlying().(*types.Basic); ok && under.Info()&types.IsNumeric != 0 {
+			plain := false
+			if basic, isBasic := types.Unalias(operand.Type()).(*types.Basic); isBasic {
+				switch basic.Kind() {
+				case types.Int, types.Float64, types.Complex128, types.UntypedInt, types.UntypedFloat, types.UntypedRune, types.UntypedComplex:
+					plain = true
+				}
+			}
+			if !plain {
+				return fmt.Sprintf("const(%s:%s)", operand.Value.ExactString(), sanitizeType(operand.Type()))
+			}
+		}
 		return fmt.Sprintf("const(%s)", operand.Value.ExactString())
 	case *ssa.Global:
 		pkgPath := ""
